@@ -266,9 +266,25 @@ class RewritingContext:
         self._symbol_retargets: Dict[gtirb.Symbol, gtirb.Symbol] = {}
         self._symbol_deletions: Dict[gtirb.Symbol, SymbolDeletionOptions] = {}
         self._logger = logger
-        self._patch_id = 0
+        self._patch_id = self._highest_used_patch_id()
         self._expensive_assertions = expensive_assertions
         self._leaf_functions = self._update_leaf_functions()
+
+    def _highest_used_patch_id(self) -> int:
+        """
+        Temporary labels of a patch get "_<patch id>" appended to keep them
+        unique. Numbering continues after the ids that temporary symbols
+        already in the module (from earlier rewrites) use, so that a patch
+        inserted by several contexts never yields two symbols with one name.
+        """
+        prefix = self._abi.temporary_label_prefix()
+        highest = 0
+        for sym in self._module.symbols:
+            if sym.name.startswith(prefix):
+                _, sep, tail = sym.name.rpartition("_")
+                if sep and tail.isdigit():
+                    highest = max(highest, int(tail))
+        return highest
 
     def _might_be_leaf_function(self, func: gtirb_functions.Function) -> bool:
         """
